@@ -581,10 +581,32 @@ def inline_new_constants(cur_trees, pkg="shexer"):
                     if al.name in per_module[st.module]:
                         imported[al.asname or al.name] = per_module[st.module][al.name]
         if imported:
+            # the names a table mentions come along (they are bound in the module the table was written in)
+            bound_here = set()
+            for st in tree2.body:
+                if isinstance(st, (ast.FunctionDef, ast.ClassDef)):
+                    bound_here.add(st.name)
+                elif isinstance(st, ast.Assign):
+                    bound_here.update(x.id for t in st.targets for x in ast.walk(t) if isinstance(x, ast.Name))
+                elif isinstance(st, (ast.Import, ast.ImportFrom)):
+                    bound_here.update((al.asname or al.name).split(".")[0] for al in st.names)
+            need = {}
+            for st in tree2.body:
+                if isinstance(st, ast.ImportFrom) and st.module in per_module:
+                    for al in st.names:
+                        if al.name in per_module[st.module]:
+                            for x in ast.walk(per_module[st.module][al.name]):
+                                if isinstance(x, ast.Name) and x.id not in bound_here:
+                                    need.setdefault(st.module, set()).add(x.id)
+            for mod_, names_ in need.items():
+                imp = ast.ImportFrom(module=mod_, names=[ast.alias(name=n_, asname=None) for n_ in sorted(names_)], level=0)
+                imp.lineno = imp.col_offset = 0
+                tree2.body.insert(0, imp)
             tr = _Inline(imported)
             for i, st in enumerate(tree2.body):
                 if not isinstance(st, (ast.Import, ast.ImportFrom)):
                     tree2.body[i] = tr.visit(st)
+            ast.fix_missing_locations(tree2)
     return done
 
 
